@@ -448,7 +448,7 @@ def m_cmp_elem(eng, callee, args):
 
 @model(NUMERIC + r"is_nan$", "is_nan: false everywhere in R-mode")
 def m_is_nan(eng, callee, args):
-    return bool_ten(elementwise(ten(args[0]).a, lambda x: False))
+    return bool_ten(elementwise(ten(args[0]).a, lambda x: Num.of(x).is_nan()))
 
 
 @model(NUMERIC + r"bool_or$|" + NUMERIC + r"bool_and$", "Bool tensor or/and")
